@@ -258,3 +258,29 @@ def finish(out):
     log("OK property=%s tier=%s seed=%s states=%s transitions=%s impl_traces=%s wall=%.1fs" % (
         out.prop, out.tier, out.seed, cov.get("states"), cov.get("transitions"), cov.get("traces_validated_against_impl"), time.time() - out.t0))
     return 0
+
+
+# ---------------------------------------------------------------- Apalache
+def run_apalache(scr, specdir, module, args, name, timeout=600, mutate=None):
+    """Runs apalache-mc check in a private copy; returns 'NoError' | 'Error' | 'Broken:<msg>'."""
+    wd = scr.path("apa-" + name)
+    if not os.path.isdir(wd):
+        shutil.copytree(os.path.join(VERIF, "spec", specdir), wd)
+    if mutate:
+        p = os.path.join(wd, module + ".tla")
+        s = open(p).read()
+        assert mutate[0] in s, "mutation anchor missing"
+        open(p, "w").write(s.replace(mutate[0], mutate[1]))
+    cmd = ["apalache-mc", "check", "--out-dir=" + os.path.join(wd, "out"), "--run-dir=" + os.path.join(wd, "run")] + args + [module + ".tla"]
+    t0 = time.time()
+    try:
+        p = subprocess.run(cmd, cwd=wd, stdout=subprocess.PIPE, stderr=subprocess.STDOUT, text=True, timeout=timeout,
+                           env=dict(os.environ, JVM_ARGS="-Xmx4g", TMPDIR=wd))
+    except subprocess.TimeoutExpired:
+        return "Broken:timeout"
+    log("  apalache %-18s %5.1fs" % (name, time.time() - t0))
+    if "The outcome is: NoError" in p.stdout:
+        return "NoError"
+    if "The outcome is: Error" in p.stdout or "violation" in p.stdout.lower():
+        return "Error"
+    return "Broken:" + p.stdout[-600:]
